@@ -76,7 +76,7 @@ def scope1(sc, graph, mode, args, generator, log_paths=()):
             work += graph.all_inputs(s)
     elif mode == "rules":
         for s in sc["stmts"]:
-            if s["kind"] != "phony" and ("r_" + s["id"]) in args:
+            if s["kind"] != "phony" and simlib.rule_name(s) in args:
                 allowed |= files_of(s)
     elif mode == "dead":
         inputs = set()
@@ -115,6 +115,20 @@ def run(ctx):
             if rng.random() < 0.5:
                 sc["sources"]["all"] = "a file that happens to be called like an alias\n"
                 sc["stmts"].append(St("phall", ["all"], ins=[s["outs"][0] for s in sc["stmts"] if s["kind"] == "cmd"][:2], kind="phony"))
+        # part of the project in a file of its own (subninja), which may declare a rule under a name the top-level file uses too:
+        # "-r NAME" is about every statement whose rule is called NAME
+        subfile = False
+        cmds0 = [s for s in sc["stmts"] if s["kind"] == "cmd"]
+        if len(cmds0) >= 2 and rng.random() < 0.3:
+            subfile = True
+            moved = rng.sample(cmds0, rng.randint(1, len(cmds0) - 1))
+            for s in moved:
+                s["file"] = "sub.ninja"
+            if rng.random() < 0.7:
+                a_ = rng.choice([s for s in cmds0 if not s.get("file")])
+                b_ = rng.choice(moved)
+                a_["rule_name"] = b_["rule_name"] = "r_shared"
+            ctx.count("scenarios_with_subninja")
         steps, scs = [], []
         cur = copy.deepcopy(sc)
         state = rng.choice(("never", "built", "built", "half", "built-then-rm"))
@@ -146,8 +160,12 @@ def run(ctx):
             names = [o for s in cur["stmts"] for o in all_outs(s)] + sorted(cur["sources"])[:2]
             cl["args"] = rng.sample(names, rng.randint(1, min(3, len(names))))
         elif mode == "rules":
-            rules = ["r_" + s["id"] for s in cur["stmts"] if s["kind"] != "phony"] + ["phony"]
+            # (a rule that is declared only inside a subninja file is not visible from the top level: `-r` answers "unknown rule",
+            # an error and not a silent omission - such names are not asked for)
+            rules = sorted({simlib.rule_name(s) for s in cur["stmts"] if s["kind"] != "phony" and not s.get("file")}) + ["phony"]
             cl["args"] = rng.sample(rules, rng.randint(1, min(3, len(rules))))
+            if subfile and "r_shared" in rules and rng.random() < 0.7 and "r_shared" not in cl["args"]:
+                cl["args"][0] = "r_shared"
         elif mode == "dead":
             # change the manifest: drop / rename statements so that logged outputs go dead
             cmds = [s for s in cur["stmts"] if s["kind"] == "cmd"]
